@@ -14,4 +14,4 @@ RULE = ("KIN records for entries 1 and 3 plus normalize_near / calculate_distanc
 EXPLANATION = "see LEVEL_NOTE"
 ASSUMPTIONS = K.ASSUME
 PARTIAL = ["previous-first and trajectory tracking need kernel completeness (C02): decided by the oracle search, not yet by a theorem"]
-correspondence, search = K.make("C04", lambda r: (r["fn"] == "entry" and r["entry"] in (1, 3)) or r["fn"] in ("normalize_near", "calculate_distance"))
+correspondence, search = K.make("C04", lambda r: (r["fn"] == "entry" and r["entry"] in (1, 3)) or r["fn"] in ("normalize_near", "calculate_distance", "sort_by_closeness"))
